@@ -65,7 +65,46 @@ Theorem C02_hide_table :
     (stdout_hidden (to_req h) async out_given, stderr_hidden (to_req h) async err_given).
 Proof. exact hide_table. Qed.
 
-(** Flagship: the run model satisfies the executable spec on ALL inputs. *)
+(** The mirror stream's [encoding] attribute.  The text handed to [write()] of the
+    out/err stream, call by call, is the same whatever the stream objects advertise
+    as their encoding and whatever kind of stream they are ... *)
+Theorem C02_writes_independent_of_mirror :
+  forall i mo me mo' me',
+    run_writes_inc (with_mirrors i mo me) = run_writes_inc (with_mirrors i mo' me').
+Proof. exact writes_independent_of_mirror. Qed.
+
+(** ... so for recording streams the whole observation (captured texts, mirrored
+    texts, watcher submissions) is independent of the advertised encodings *)
+Theorem C02_mirror_encoding_irrelevant :
+  forall i eo ee eo' ee',
+    run_model_inc (with_mirrors i (mkMirror eo false) (mkMirror ee false)) =
+    run_model_inc (with_mirrors i (mkMirror eo' false) (mkMirror ee' false)).
+Proof. exact run_independent_of_mirror_encoding. Qed.
+
+(** ... and an unhidden recording stream holds exactly the captured text *)
+Theorem C02_recording_mirror_is_capture :
+  forall i eo,
+    ri_out_mirror i = mkMirror eo false ->
+    fst (effective_hide (ri_hide i) (ri_async i) (ri_out_given i) (ri_err_given i)) = false ->
+    ro_out_stream (run_model_inc i) = ro_stdout (run_model_inc i).
+Proof. exact recording_mirror_is_capture. Qed.
+
+(** A stream with its own error handler (TextIOWrapper, backslashreplace) that is
+    written to piece by piece ends up like an identical stream given the whole
+    text in one write: its handler is applied to the text the command wrote. *)
+Theorem C02_stream_content_one_write :
+  forall m writes, stream_content m writes = stream_content m [List.concat writes].
+Proof. exact stream_content_one_write. Qed.
+
+Theorem C02_wrapper_mirror_is_rendered_capture :
+  forall i eo,
+    ri_out_mirror i = mkMirror eo true ->
+    fst (effective_hide (ri_hide i) (ri_async i) (ri_out_given i) (ri_err_given i)) = false ->
+    ro_out_stream (run_model_inc i) = render eo (ro_stdout (run_model_inc i)).
+Proof. exact wrapper_mirror_is_rendered_capture. Qed.
+
+(** Flagship: the run model satisfies the executable spec on ALL inputs
+    (all mirror-stream encodings and kinds included). *)
 Theorem C02_run_meets_spec : forall i, spec_in i (run_model_inc i) = true.
 Proof. exact repaired_run_meets_spec. Qed.
 
@@ -77,9 +116,21 @@ Proof. vm_compute. reflexivity. Qed.
 
 Example C02_ex_run :          (* characters cut by read boundaries on both streams, stderr hidden *)
   let i := mkIn Utf8 [RChunk [195]; RExit; RChunk [169; 226]; RChunk [130; 172]] [RChunk [255]; RChunk [240; 159]]
-                HErr false false false false in
+                HErr false false false false (mkMirror MNone false) (mkMirror MNone false) in
   run_model_inc i = mkObs [233; 8364] [REPL; REPL] [233; 8364] [] [[233]; [233; 8364]] [[REPL]; [REPL; REPL]].
 Proof. vm_compute. reflexivity. Qed.
+
+Example C02_ex_mirror :       (* e-acute cut by a read, euro sign, an invalid byte; an ASCII recording stream on
+                                 stdout gets the text itself, an ASCII backslashreplace wrapper on stderr its escapes *)
+  let i := mkIn Utf8 [RChunk [195]; RChunk [169; 226; 130; 172; 255]] [RChunk [195; 169]; RExit; RChunk [240; 159; 152; 128]]
+                HNone false false false false (mkMirror MAscii false) (mkMirror MAscii true) in
+  run_model_inc i =
+  mkObs [233; 8364; REPL] [233; 128512] [233; 8364; REPL]
+        [92; 120; 101; 57;  92; 85; 48; 48; 48; 49; 102; 54; 48; 48]        (* \xe9\U0001f600 *)
+        [[233; 8364; REPL]] [[233]; [233; 128512]] /\
+  ro_out_stream (run_model_inc (with_mirrors i (mkMirror MCp1252 true) (mkMirror MLatin1 false)))
+  = [233; 8364; 92; 117; 102; 102; 102; 100].                              (* e-acute, euro, \ufffd *)
+Proof. vm_compute. split; reflexivity. Qed.
 
 (** * Historical record: the per-read loop before the fix of F-C02
     ([self.decode(data)] once per read, a fresh decoder each time). *)
